@@ -16,7 +16,7 @@ RULE = ("authentic sealed replies (stub lengths 0..80, signature sizes {16,28,60
 ASSUMPTIONS = ["A.Ideal: unwrap succeeds only on what the peer's context sealed (over header | body | trailer when signing)"]
 
 
-def do_request(reply, header_len, sign, use_async):
+def do_request(reply, header_len, sign, use_async, req_stub=b"\x01" * 12):
     auth = rpcfmt.ScriptedProvider(header_len=header_len)
     if use_async:
         async def go():
@@ -25,13 +25,13 @@ def do_request(reply, header_len, sign, use_async):
             reader.feed_eof()
             c = rpcsim.async_client(reader, rpcsim.FakeWriter(), auth)
             c._sign_header = sign
-            return await c.request(0, 0, b"\x01" * 12)
+            return await c.request(0, 0, req_stub)
         f = lambda: asyncio.run(go())
     else:
         sock = rpcsim.FakeSocket(replies=[reply])
         c = rpcsim.sync_client(sock, auth)
         c._sign_header = sign
-        f = lambda: c.request(0, 0, b"\x01" * 12)
+        f = lambda: c.request(0, 0, req_stub)
     try:
         resp = f()
         return "ok " + rpcfmt.pdu(resp), resp, auth
@@ -103,9 +103,12 @@ def run(ctx):
             prev_wire = wire
             for kind, m in alts:
                 use_async = rng.random() < 0.15
-                out, resp, auth = do_request(m, hl, sign, use_async)
+                # the request that the reply answers: usually a 12-octet stub, sometimes one with NO input parameters at all (still sealed)
+                req_stub = b"" if (kind in ("authentic", "auth_len=0 keep bytes", "trailer removed") or rng.random() < 0.1) and rng.random() < 0.5 else b"\x01" * 12
+                out, resp, auth = do_request(m, hl, sign, use_async, req_stub)
+                ctx.count("request_stub:" + ("empty" if not req_stub else "12"))
                 tr = int.from_bytes(m[8:10], "little") - (int.from_bytes(m[10:12], "little") + 8)
-                line = f"process_response 10.{hl} {int(sign)} {hx(m)} response 24.40"
+                line = f"process_response 10.{hl} {int(sign)} {hx(m)} response 24.{24 + (len(req_stub) + 15) // 16 * 16}"
                 # the transport part (frag_len beyond the data etc.) is C14's; only complete frames reach _process_response
                 frag = int.from_bytes(m[8:10], "little")
                 if frag == len(m) and len(m) >= 16:
